@@ -225,26 +225,24 @@ theorem send_bytes (k : Kcp) (buffer : Bytes) (hm : 0 < k.mss.toNat)
   · rw [if_pos c0] at hse
     rw [hse]; simp
   · rw [if_neg c0] at hse
-    by_cases c1 : sendPanic1 k buffer = true
-    · rw [if_pos c1] at hse; rw [hse] at hp; cases hp
-    · rw [if_neg c1] at hse
-      by_cases c2 : k.stream ≠ 0 ∧ (sendRest k buffer).length = 0
-      · rw [if_pos c2] at hse
-        rw [hse]
-        simp only [↓reduceIte]
-        rw [sendQ1_bytes]
-        have : sendRest k buffer = [] := List.eq_nil_of_length_eq_zero c2.2
-        rw [this] at hsplit
-        simp at hsplit
-        rw [hsplit]
-      · rw [if_neg c2] at hse
-        by_cases c3 : sendCount k buffer > 255
-        · rw [if_pos c3] at hse
+    by_cases c3 : sendCount k buffer > 255
+    · rw [if_pos c3] at hse
+      rw [hse]
+      simp
+    · rw [if_neg c3] at hse
+      by_cases c1 : sendPanic1 k buffer = true
+      · rw [if_pos c1] at hse; rw [hse] at hp; cases hp
+      · rw [if_neg c1] at hse
+        by_cases c2 : k.stream ≠ 0 ∧ (sendRest k buffer).length = 0
+        · rw [if_pos c2] at hse
           rw [hse]
-          simp only []
+          simp only [↓reduceIte]
           rw [sendQ1_bytes]
-          rfl
-        · rw [if_neg c3] at hse
+          have : sendRest k buffer = [] := List.eq_nil_of_length_eq_zero c2.2
+          rw [this] at hsplit
+          simp at hsplit
+          rw [hsplit]
+        · rw [if_neg c2] at hse
           by_cases c4 : min (sendRest k buffer).length k.mss.toNat > mtuLimit
           · rw [if_pos c4] at hse; rw [hse] at hp; cases hp
           · rw [if_neg c4] at hse
